@@ -101,6 +101,7 @@ PROPS = {
         "statement": "Iterator = fold of unwind_frame, starts at pc, stays finished.",
     },
     "C18": {
+        "technique": 'Lean 4 theorems about the atomic counter (distinctness for < 65536 draws, schedule independence, reachable-state invariant) + 16-thread stress and source-shape check of the fetch_add (atomicity of the hardware RMW is assumed)',
         "lean": ["FH.Props.C18"],
         "engines": ["thr", "hist"],
         "level_text": "Theorems: any two of up to 65 536 consecutive atomic draws differ; the value of a draw depends only on its position in the global order, not on the schedule (every interleaving of atomic steps is a sequence); in every reachable state two live unwinders with the same generation have the same module list. The atomicity of fetch_add is trusted; the check verifies the source still uses a single fetch_add. Tie: 16 real threads drawing concurrently, generations read through the hook.",
@@ -125,8 +126,8 @@ PROPS = {
     "C01": {
         "lean": ["FH.Props.C01"],
         "engines": ["scn", "row", "hist", "asm"],
-        "level_text": "Theorems: unwind_frame on a fresh cache is stepRow of the row the module's CFI resolves to; stepRow performs exactly the DWARF step of the row on a real stack (both architectures, via the C05 theorems for the compressed and the generic path); a walk over any true call chain (unbounded depth) yields exactly its return addresses with the caller's registers after each step and ends with Ok(None) at the root (C01_x64_walk, induction over the chain); the cache state is irrelevant (C06). Tie: synthesized programs with simulator ground truth, every instruction boundary, three presentations, both policies; each generated step is first confirmed by the Lean driver's dwarfSpec (generator check), then the implementation is judged against it.",
-        "level_note": _NOTE + " The aarch64 walk is covered by the per-step theorem C01_a64_exact_step (the chain induction is written out for x86-64). Known findings: F14 (aarch64 first frame, undefined RA) and F21 (aarch64: a frame-pointer-rule step whose restored fp is null ends the walk without reporting the caller, e.g. a root running with fp = 0).",
+        "level_text": "Theorems: unwind_frame on a fresh cache is stepRow of the row the module's CFI resolves to; stepRow performs exactly the DWARF step of the row on a real stack (both architectures, via the C05 theorems for the compressed and the generic path); a walk over any true call chain (unbounded depth) yields exactly its return addresses with the caller's registers after each step and ends with Ok(None) at the root (C01_x64_walk and C01_a64_walk, induction over the chain; on aarch64 the root is reached as a caller frame); the cache state is irrelevant (C06). Tie: synthesized programs with simulator ground truth, every instruction boundary, three presentations, both policies; each generated step is first confirmed by the Lean driver's dwarfSpec (generator check), then the implementation is judged against it.",
+        "level_note": _NOTE + " Known findings: F14 (aarch64 first frame, undefined RA) and F21 (aarch64: a frame-pointer-rule step whose restored fp is null ends the walk without reporting the caller, e.g. a root running with fp = 0).",
         "statement": "Exact chain => exact walk, for all chains, rows of the domain, registers and stack contents.",
     },
     "C04": {
@@ -158,6 +159,7 @@ PROPS = {
         "statement": "Mach-O compact unwind: x86-64 prologue/epilogue analysis sound for all push/pop sequences; body rules exact; dispatch order; stub tables; arm64 partial (bodies and stubs proved, word scans by correspondence).",
     },
     "C14": {
+        "technique": 'Lean 4 theorems over arbitrary module data (no panic outcome in the plan / compact-unwind dispatch / analysers) + fault injection on the implementation (byte-level corruption of generated and real sections under catch_unwind with overflow checks; this half is testing, not proof)',
         "lean": ["FH.Props.C14"],
         "engines": ["mut", "ana", "macho", "pe"],
         "level_text": "Theorems over arbitrary module data (tables, opcodes, ranges, text bytes, FDEs, rows all universally quantified - corrupt data included): the instruction analysers are total when the offset lies within the bytes; the compact-unwind dispatch always hands them a slice containing the offset (arbitrary unsorted/overlapping/inverted tables and text ranges), hence never panics; the plan is never `panic` for any module, address and frame kind on both architectures. Partial: the byte-level parsers are third-party and framehop's glue around them (slicing, index construction, range arithmetic) is not modelled at byte level; that part is decided by the mut engine (byte-level corruption of generated and real sections, catch_unwind, overflow checks, panic location attribution, in-flight case file for hangs).",
@@ -165,6 +167,7 @@ PROPS = {
         "statement": "No reachable panic outcome in the model's format-specific code for any module data; byte-level hostile inputs by differential-free fault injection on the implementation.",
     },
     "C15": {
+        "technique": 'Lean 4 theorems (policy-free model, capacity bounds of fixed-size storage) + counting-allocator instrumentation and policy differential on the implementation (the allocation half is measured, not proved)',
         "lean": ["FH.Props.C15"],
         "engines": ["alloc", "scn"],
         "level_text": "Partial by nature. Proved: the model has one semantics for both policies; the fixed-size storages of framehop's own code can never change a result (more than 32 chained UNWIND_INFOs are rejected before anything is stored; a compressed pop sequence has at most 8 registers). Measured, not proved: absence of heap events - a counting global allocator armed around every MustNotAllocateDuringUnwind call, for every format, hits and misses, cacheable and generic and expression paths, with the allocating call site from a backtrace; and equality of results with MayAllocateDuringUnwind on the same inputs. scn additionally runs its ground-truth walks under both policies against the model.",
@@ -172,6 +175,7 @@ PROPS = {
         "statement": "Policy-free model; capacity bounds of own fixed-size storage; allocation events and policy agreement by instrumentation.",
     },
     "C19": {
+        "technique": 'Lean 4 theorems about the feature-dependent selection of unwind data (tied to the code through a hook for all 8 subsets) + building and running all 8 feature subsets (buildability and behavioural identity are established by build-and-run, not proved)',
         "lean": ["FH.Props.C19"],
         "engines": ["feat"],
         "level_text": "Partial by nature. Proved: the only feature-dependent decision of the model - which unwind-data variant Module::new selects - does not depend on the features for modules offering neither __unwind_info nor .pdata (all 8 subsets; also as a kernel-checked finite table), std never selects anything, and the preference order among the DWARF presentations; the rest of the model has no feature parameter. The selection model is tied to the code for all 8 subsets x 128 section offers through a hook. Established by building and running, not by proof: that each subset builds (incl. no_std), and that a battery of DWARF / frame-pointer histories gives identical answers under all 8 builds and the default in-process build.",
